@@ -125,11 +125,18 @@ func (w *World) verifyFunction(c *Contract) (res *FuncResult) {
 			}
 			subs = append(subs, &SubGoal{Prefix: len(vc.script), Cond: rs.st.cond, Goal: g})
 		}
-		if strings.HasPrefix(c.Raw.Split, "profile") && len(c.SplitExprs) == 2 {
+		splitLabel := ""
+		if f := strings.Fields(c.Raw.Split); len(f) >= 4 {
+			splitLabel = f[3]
+		}
+		if strings.HasPrefix(c.Raw.Split, "profile") && len(c.SplitExprs) >= 2 && (splitLabel == "" || splitLabel == cl.Raw.Label) {
 			vc.splitByProfile(c, cl, args, subs)
 			continue
 		}
 		vc.obligeSubs("post", cl.Raw.Label, subs, len(subs) == 0, fn.Pos(), vc.clauseProps(c, cl))
+		if secs, ok := c.Raw.Slow[cl.Raw.Label]; ok {
+			vc.obls[len(vc.obls)-1].TimeoutMs = secs * 1000
+		}
 	}
 	vc.frameObligations(c, args, out)
 	return res
@@ -545,25 +552,50 @@ func (vc *VC) splitByProfile(c *Contract, cl *Clause, args []Val, subs []*SubGoa
 		}
 	}
 	merged := and(parts...)
-	for _, r := range p.Rows {
-		cond := and(eq(mv.L[0], bvLit(mw, uint64(r.Msg))), eq(nv.L[0], bvLit(nw, uint64(r.Num))))
-		rowConds = append(rowConds, cond)
-		extra := vc.rvTableAxioms(r.Msg)
-		if so := byPos[r.Pos]; so != nil {
-			for _, ax := range so.axioms {
-				// "(assert (= (select HEAP ref) v))": only heaps this VC declares
-				f := strings.Fields(ax)
-				if len(f) > 3 && vc.declared[f[3]] {
-					extra = append(extra, ax)
+	// one query per message (all its field numbers symbolic); a failing message
+	// is re-split per entry (Expand) so that the violation names the entry
+	var msgs []int
+	for m := range p.RowsByMsg {
+		msgs = append(msgs, m)
+	}
+	sort.Ints(msgs)
+	for _, m := range msgs {
+		rows := p.RowsByMsg[m]
+		mcond := eq(mv.L[0], bvLit(mw, uint64(m)))
+		extra := vc.rvTableAxioms(m)
+		var rc []string
+		for _, r := range rows {
+			rc = append(rc, eq(nv.L[0], bvLit(nw, uint64(r.Num))))
+			rowConds = append(rowConds, and(mcond, eq(nv.L[0], bvLit(nw, uint64(r.Num)))))
+			if so := byPos[r.Pos]; so != nil {
+				for _, ax := range so.axioms {
+					f := strings.Fields(ax)
+					if len(f) > 3 && vc.declared[f[3]] {
+						extra = append(extra, ax)
+					}
 				}
 			}
 		}
-		ss := []*SubGoal{{Prefix: maxPrefix, Cond: cond, Goal: merged, Extra: extra}}
-		vc.obligeSubs("table", fmt.Sprintf("%s.%d", msgLabel(p, r.Msg), r.Num), ss, len(subs) == 0, token.NoPos, props)
+		ss := []*SubGoal{{Prefix: maxPrefix, Cond: and(mcond, or(rc...)), Goal: merged, Extra: extra}}
+		vc.obligeSubs("table", msgLabel(p, m), ss, len(subs) == 0, token.NoPos, props)
 		o := vc.obls[len(vc.obls)-1]
-		o.Pos = vc.w.Fset.Position(r.Pos).String()
 		o.NoStatics = true
-		o.Batch = fmt.Sprintf("%s#table/%d", vc.fnName(), r.Msg)
+		if len(rows) > 0 {
+			o.Pos = vc.w.Fset.Position(rows[0].Pos).String()
+		}
+		// expansion per entry
+		mm, rr, ex := m, rows, extra
+		o.Expand = func() []*Obligation {
+			var out []*Obligation
+			for _, r := range rr {
+				cond := and(eq(mv.L[0], bvLit(mw, uint64(mm))), eq(nv.L[0], bvLit(nw, uint64(r.Num))))
+				eo := &Obligation{Name: fmt.Sprintf("%s#table.%s.%d", vc.fnName(), msgLabel(p, mm), r.Num), Kind: "table", Fn: vc.fnName(), Props: props,
+					Subs: []*SubGoal{{Prefix: maxPrefix, Cond: cond, Goal: merged, Extra: ex}}, Expect: "unsat", Cond: "true", Goal: "true", NoStatics: true,
+					Pos: vc.w.Fset.Position(r.Pos).String()}
+				out = append(out, eo)
+			}
+			return out
+		}
 	}
 	var ss []*SubGoal
 	for _, sg := range subs {
